@@ -86,8 +86,10 @@ PROPS = {
     level_text="Lean 4 proof (a) for the COMPOSED container at the granularity of every shared access of both rings (model M4 ZeroCopy = pool + free-list ring + ring of ids, each an instance of ring model M1): in every reachable state both rings satisfy the ring invariant, the ids in the free list and in the queue are pairwise distinct and < N, a slot held by a thread is in neither ring and held by nobody else (at most one owner), both rings always have room (pigeonhole over the conserved slots: publish never answers full, dealloc never finds the free list full), an allocation never returns a held slot, enqueue answers full only when the free list answered empty; (b) for every execution of the pool model (any thread count / schedule / history, including shared and unique handles on top): free list, owned slots and unique allocations always form a permutation of 0..N-1 (so no slot has two owners, at most N are outstanding, exhaustion is answered exactly when the free list is empty, dealloc always finds room), FIFO reuse, id<->reference bijection; the free list itself is ring model M1/M2 (C02 witnesses for `empty`). Tied to the code by step-level replay; oracle: ids handed out are distinct, capacity restored.",
     level_note=LN_HANDLES,
     lean=["C13", "C13_ZeroCopy"],
-    scenarios=[handles("atomic", 1200), handles("fullsync", 1200), ring("atomic", "mixed", 800), ring("fullsync", "mixed", 800),
-               dict(bin="misc", args=["sub=aqueue"], runs=600, model_name="M4 ZeroCopy (pool + free-list ring + ring of ids)", kinds=["duplicate", "lost", "fifo", "invented", "capacity_not_restored", "full_while_room", "empty_while_pending", "panic", "no_progress"])],
+    scenarios=[handles("atomic", 1200), handles("fullsync", 1200), ring("atomic", "mixed", 800), ring("fullsync", "mixed", 800)] +
+              # the bare allocator with every free-list access a yield point and an EXACT exhaustion oracle (after seeded C13-4)
+              [dict(bin="handles", args=["sub=pool", f"kind={k}"], runs=800, model=False, model_name="(oracle only: bare pool allocator, every free-list access a yield point, exact exhaustion oracle)", kinds=["exhausted_while_free", "slot_two_owners", "pool_not_full", "no_progress", "panic"]) for k in ("atomic", "fullsync")] +
+              [dict(bin="misc", args=["sub=aqueue"], runs=600, model_name="M4 ZeroCopy (pool + free-list ring + ring of ids)", kinds=["duplicate", "lost", "fifo", "invented", "capacity_not_restored", "full_while_room", "empty_while_pending", "panic", "no_progress"])],
     rule=HANDLES_RULE,
     trusted_base=TB_COMMON,
     assumptions=["only owned ids are deallocated (the callers in this crate are OgreArc/OgreUnique/zero-copy containers, modelled)"],
@@ -152,6 +154,7 @@ PROPS = {
     lean=["C07", "C07_CancelAll", "C07_CancelAllLock"],
     scenarios=[dict(bin="uni", args=[f"kind={k}", "sub=cancel"], runs=500, model_name="M8 Wake", kinds=["cancelled_stream_never_ended", "untargeted_stream_starved", "buffered_event_dropped_at_end", "no_progress", "panic", "invented", "duplicate"]) for k in UNI_KINDS] +
               [dict(bin="multi", args=[f"kind={k}", "sub=reuse"], runs=300, model=False, model_name="(oracle only: a stream id handed out again while its previous owner's removal is finishing)", kinds=["uncancelled_stream_ended", "no_progress", "panic"]) for k in MULTI_KINDS] +
+              [dict(bin="exec", args=["sub=endreuse"], runs=120, model=False, single=True, thorough_scale=10, model_name="(oracle only: ONE stream ended through gracefully_end_stream() while its consumer re-subscribes and gets the released id; real clock)", kinds=["uncancelled_stream_ended", "untargeted_stream_starved", "cancelled_stream_never_ended", "buffered_event_dropped_at_end", "panic"])] +
               [dict(bin="multi", args=[f"kind={k}", "sub=cancelall"], runs=400, model=False, model_name="(oracle only: cancel_all_streams racing with the removal of a listener, Multi channels)", kinds=["cancelled_stream_never_ended", "no_progress", "panic"]) for k in MULTI_KINDS],
     rule=UNI_RULE + "; cancel requests for a random subset of the streams are injected after a random number of scheduler turns; `multi sub=cancelall`: 2-3 listeners of a Multi channel (MAX_STREAMS = 4) driven by tasks polled only while notified, one thread removing a listener, one calling cancel_all_streams(), a producer sending 0-2 events",
     trusted_base=TB_COMMON,
@@ -164,7 +167,9 @@ PROPS = {
     scenarios=[ring("atomic", "rsv", 2000), ring("atomic", "rsv", 1000, profile="checked"),
                ring("atomic", "rsv", 1000, extra=["origins=4294967288,0,4294967280,4294967264", "model32=1"], profile="checked", model_name="M1/32 Ring32"),
                dict(bin="ring", args=["kind=atomic", "sub=diff", "origins=0,4294967288,4294967280,4294967264"], runs=300, model=False, profile="checked", model_name="(differential)")] +
-              [dict(bin="uni", args=[f"kind={k}", "sub=flow"], runs=300, model_name="M8 Wake", kinds=["invented", "duplicate", "rejected_delivered", "lost", "order", "panic"]) for k in ["matomic", "zatomic", "zfullsync"]],
+              [dict(bin="uni", args=[f"kind={k}", "sub=flow"], runs=300, model_name="M8 Wake", kinds=["invented", "duplicate", "rejected_delivered", "lost", "order", "panic"]) for k in ["matomic", "zatomic", "zfullsync"]] +
+              # reserve_slot + try_send_reserved racing with an actively polling consumer at every ring / pool access (after seeded C08-4)
+              [dict(bin="uni", args=[f"kind={k}", "sub=fine"], runs=300, model=False, model_name="(oracle only, fine granularity: reserved sends racing with consumers)", kinds=["lost", "invented", "duplicate", "rejected_delivered", "order", "panic", "no_progress"]) for k in ["matomic", "zatomic", "zfullsync"]],
     profiles=["release", "checked"],
     rule="one producer-side thread issues a random history of reserve / fill / publish-by-index / cancel-by-index (newest first, sometimes out of order) / plain send (only with no reservation outstanding), 1-2 concurrent consumers; NON-TRIVIAL if a full/empty answer or a receding CAS occurs; DISTINCT by trace hash",
     trusted_base=TB_COMMON,
